@@ -14,7 +14,7 @@ EXPLANATION = (
     'final next.run receives the original request; R16.h in Redirect::handle the only request mutator called is url_mut (method, body and headers of the original request are never touched); R16.e the Client handed to middleware has an empty stack; R16.f every write '
     'of the request URL in the redirect loop is preceded, in the same iteration, by an update of the base used for joining '
     'relative locations; R16.g the set of statuses followed as redirects, read from the table or match that guards the Location branch, is exactly '
-    '301, 302, 303, 307, 308. Decides these shapes, not URL resolution inside the url crate.')
+    '301, 302, 303, 307, 308. Decides these shapes, not URL resolution inside the url crate. R16.i each endpoint of the chain emits exactly one effect outside any loop (shared with C14 R14.c).')
 
 
 def coroutine_body(crate, fn_pattern, **kw):
